@@ -32,6 +32,9 @@ FIXED = [
      _E % ('e1', 'B+', 'C-'), 'O\to1\tA+ B+', 'O\to2\tC+ B- A-', 'U\tu1\to2 C'],
     ['S\tA\t10\t*', 'S\tB\t10\t*', _E % ('e1', 'A+', 'B+'), _E % ('*', 'B-', 'A-'), _E % ('e2', 'A+', 'A+'), _E % ('*', 'B+', 'B-'),
      'O\to1\tA+ B+', 'O\to2\tA+ e1+ B+', 'O\to3\tA+ A+ B+', 'O\to4\tA+ B+ B-', 'U\tu1\te1 e2'],
+    # groups given in several lines whose tags are of every datatype: the merged group keeps name, datatype and value
+    ['S\tA\t10\t*', 'S\tB\t10\t*', _E % ('e1', 'A+', 'B+'), 'U\tu1\tA\taa:A:c\tjj:J:[1,2,3]\thh:H:0A', 'U\tu1\tB\tbb:B:c,1,2\tff:f:1.5',
+     'U\tu1\te1\tzz:Z:k', 'O\to1\tA+\taa:A:c\tjj:J:{"a":1}', 'O\to1\tB+\tii:i:3'],
 ]
 
 
@@ -146,8 +149,8 @@ def gen_case(rng, i):
     for gid, its in groups:
         if len(its) >= 2 and rng.random() < 0.3:
             k = rng.randrange(1, len(its))
-            lines.append('O\t%s\t%s%s' % (gid, ' '.join(its[:k]), rng.choice(['', '\txx:i:1'])))
-            lines.append('O\t%s\t%s%s' % (gid, ' '.join(its[k:]), rng.choice(['', '\tyy:Z:a', '\txx:i:1'])))
+            lines.append('O\t%s\t%s%s' % (gid, ' '.join(its[:k]), rng.choice(['', '\txx:i:1', '\taa:A:c\tjj:J:[1,2,3]', '\thh:H:0A\tff:f:1.5'])))
+            lines.append('O\t%s\t%s%s' % (gid, ' '.join(its[k:]), rng.choice(['', '\tyy:Z:a', '\txx:i:1', '\tbb:B:c,1,2'])))
             notes['multiline'] = True
         else:
             lines.append('O\t%s\t%s' % (gid, ' '.join(its)))
@@ -158,7 +161,7 @@ def gen_case(rng, i):
         uid = 'u%d' % (ui + 1)
         its = rng.sample(refs + us, rng.randint(1, min(4, len(refs))))
         if rng.random() < 0.25 and len(its) >= 2:
-            lines.append('U\t%s\t%s' % (uid, ' '.join(its[:1])))
+            lines.append('U\t%s\t%s%s' % (uid, ' '.join(its[:1]), rng.choice(['', '\taa:A:c', '\tjj:J:[1,2,3]\tbb:B:C,1,2', '\tzz:i:3'])))
             lines.append('U\t%s\t%s\tzz:i:3' % (uid, ' '.join(its[1:])))
         else:
             lines.append('U\t%s\t%s' % (uid, ' '.join(its)))
@@ -206,7 +209,8 @@ def observe(case):
         r2 = impl.outcome(lambda: [el_name(i) for i in x.captured_segments])
         r3 = impl.outcome(lambda: [el_name(i) for i in x.captured_edges])
         out[x.name] = {'kind': 'O', 'path': r, 'segments': r2, 'edges': r3,
-                       'items': ' '.join(str(i) for i in x.items), 'tags': sorted(x.tagnames)}
+                       'items': ' '.join(str(i) for i in x.items), 'tags': sorted(x.tagnames),
+                       'tagtexts': impl.value_or(lambda: sorted(x.field_to_s(t, tag=True) for t in x.tagnames), None)}
     for x in G.sets:
         if not isinstance(x.name, str):
             continue
@@ -214,7 +218,8 @@ def observe(case):
         r2 = impl.outcome(lambda: sorted(edge_label(i) for i in x.induced_edges_set))
         r3 = impl.outcome(lambda: len(x.induced_set))
         out[x.name] = {'kind': 'U', 'segments': r, 'edges': r2, 'size': r3,
-                       'items': ' '.join(i.name if hasattr(i, 'name') else str(i) for i in x.items), 'tags': sorted(x.tagnames)}
+                       'items': ' '.join(i.name if hasattr(i, 'name') else str(i) for i in x.items), 'tags': sorted(x.tagnames),
+                       'tagtexts': impl.value_or(lambda: sorted(x.field_to_s(t, tag=True) for t in x.tagnames), None)}
     return out, G
 
 
@@ -276,6 +281,16 @@ def u_lookahead(doc, uid, seen=()):
     return False
 
 
+def want_texts(tags):
+    """the tags as written: name and datatype as given, value in canonical spelling"""
+    from .. import canon as CN
+    out = set()
+    for t in tags:
+        n, dt, v = t.split(':', 2)
+        out.add('%s:%s:%s' % (n, dt, CN.canon_value(dt, v)))
+    return sorted(out)
+
+
 def judge(case):
     obs, G = observe(case)
     doc = SG.Doc(case['lines'])
@@ -292,6 +307,9 @@ def judge(case):
         want_tags = sorted(t[:2] for t in doc.tags.get(gid, []))
         if o['tags'] != want_tags:
             out.append(('the tags of group %s are not the union of the tags of its lines' % gid, want_tags, o['tags']))
+        elif o.get('tagtexts') != want_texts(doc.tags.get(gid, [])):
+            out.append(('a tag of group %s does not keep its name, datatype and value through the merge' % gid,
+                        want_texts(doc.tags.get(gid, [])), o.get('tagtexts')))
         try:
             walks = SG.captured_all(doc, gid)
             err = None
@@ -333,6 +351,9 @@ def judge(case):
         want_tags = sorted(t[:2] for t in doc.tags.get(uid, []))
         if o['tags'] != want_tags:
             out.append(('the tags of group %s are not the union of the tags of its lines' % uid, want_tags, o['tags']))
+        elif o.get('tagtexts') != want_texts(doc.tags.get(uid, [])):
+            out.append(('a tag of group %s does not keep its name, datatype and value through the merge' % uid,
+                        want_texts(doc.tags.get(uid, [])), o.get('tagtexts')))
         try:
             segs = SG.induced_segments(doc, uid)
             err = None
